@@ -219,6 +219,14 @@ func pcRun(c *pcCase, dir string, seq int) (map[string]interface{}, error) {
 			if node.fileOffset != c.Foff {
 				return pcDec{St: "err", E: "other", Msg: "foff differs from node offset"}
 			}
+			if seq%2 == 0 {
+				// the page is usually REwritten in place: an older image of it (no zero byte anywhere) is
+				// in the file already, and every byte of it has to go
+				old := bytes.Repeat([]byte{0xAB}, int(pageSize))
+				if _, err := fs1.file.WriteAt(old, int64(c.Foff)); err != nil {
+					return pcDec{St: "err", E: "other", Msg: err.Error()}
+				}
+			}
 			if err := fs1.update(node); err != nil {
 				return pcDec{St: "err", E: "other", Msg: err.Error()}
 			}
